@@ -3189,7 +3189,10 @@ impl<'a> Visitor<'a, '_, Error> for JSONValidator<'a> {
               }
             }
             #[cfg(feature = "additional-controls")]
-            None | Some(ControlOperator::FEATURE) => {
+            None
+            | Some(ControlOperator::FEATURE)
+            | Some(ControlOperator::AND)
+            | Some(ControlOperator::WITHIN) => {
               if i == *v as i64 {
                 None
               } else {
@@ -3197,7 +3200,7 @@ impl<'a> Visitor<'a, '_, Error> for JSONValidator<'a> {
               }
             }
             #[cfg(not(feature = "additional-controls"))]
-            None => {
+            None | Some(ControlOperator::AND) | Some(ControlOperator::WITHIN) => {
               if i == *v as i64 {
                 None
               } else {
@@ -3236,7 +3239,10 @@ impl<'a> Visitor<'a, '_, Error> for JSONValidator<'a> {
               }
             }
             #[cfg(feature = "additional-controls")]
-            None | Some(ControlOperator::FEATURE) => {
+            None
+            | Some(ControlOperator::FEATURE)
+            | Some(ControlOperator::AND)
+            | Some(ControlOperator::WITHIN) => {
               if i == *v as u64 {
                 None
               } else {
@@ -3244,7 +3250,7 @@ impl<'a> Visitor<'a, '_, Error> for JSONValidator<'a> {
               }
             }
             #[cfg(not(feature = "additional-controls"))]
-            None => {
+            None | Some(ControlOperator::AND) | Some(ControlOperator::WITHIN) => {
               if i == *v as u64 {
                 None
               } else {
@@ -3293,7 +3299,10 @@ impl<'a> Visitor<'a, '_, Error> for JSONValidator<'a> {
               }
             }
             #[cfg(feature = "additional-controls")]
-            None | Some(ControlOperator::FEATURE) => {
+            None
+            | Some(ControlOperator::FEATURE)
+            | Some(ControlOperator::AND)
+            | Some(ControlOperator::WITHIN) => {
               if (f - *v).abs() < f64::EPSILON {
                 None
               } else {
@@ -3301,7 +3310,7 @@ impl<'a> Visitor<'a, '_, Error> for JSONValidator<'a> {
               }
             }
             #[cfg(not(feature = "additional-controls"))]
-            None => {
+            None | Some(ControlOperator::AND) | Some(ControlOperator::WITHIN) => {
               if (f - *v).abs() < f64::EPSILON {
                 None
               } else {
